@@ -31,6 +31,8 @@ pub struct Bounds {
     pub max_mode_changes: usize,
     /// commands may also be issued after the Server future has resolved (late `stop` calls)
     pub cmds_after_done: bool,
+    /// how many TCP clients may reset their connection while it waits (backlog or worker queue)
+    pub client_resets: usize,
     pub kills: usize,
     /// how many workers may be killed by a panic inside `Service::call`
     pub call_kills: usize,
@@ -61,6 +63,7 @@ impl Default for Bounds {
             modes: vec![],
             max_mode_changes: 0,
             cmds_after_done: false,
+            client_resets: 0,
             kills: 0,
             call_kills: 0,
             conn_panics: 0,
@@ -90,6 +93,8 @@ pub struct ConnInfo {
     pub phase: Phase,
     pub eof: bool,
     pub calls: usize,
+    /// the client itself has reset the connection
+    pub reset: bool,
 }
 
 #[derive(Clone, Debug)]
@@ -159,6 +164,7 @@ pub struct Used {
     pub kills: usize,
     pub call_kills: usize,
     pub conn_panics: usize,
+    pub client_resets: usize,
     pub drop_stops: usize,
     pub signals: usize,
 }
@@ -176,6 +182,7 @@ pub fn used(history: &[Step]) -> Used {
             Ev::SetReady { .. } => u.mode_changes += 1,
             Ev::DropStop(_) => u.drop_stops += 1,
             Ev::Fail(_) => u.conn_panics += 1,
+            Ev::ClientReset(_) => u.client_resets += 1,
             _ => {}
         }
     }
@@ -185,7 +192,7 @@ pub fn used(history: &[Step]) -> Used {
 fn conn_infos(sys: &Sys) -> Vec<ConnInfo> {
     let w = &sys.w;
     let n = w.n_clients();
-    let mut v: Vec<ConnInfo> = (0..n).map(|c| ConnInfo { listener: w.client_listener(c), phase: Phase::Backlog, eof: w.client_eof(c), calls: 0 }).collect();
+    let mut v: Vec<ConnInfo> = (0..n).map(|c| ConnInfo { listener: w.client_listener(c), phase: Phase::Backlog, eof: w.client_eof(c), calls: 0, reset: w.client_reset(c) }).collect();
     for (_, _, r) in w.log.borrow().iter() {
         match r {
             Rec::Dispatch { conn: Some(c), worker, .. } => v[*c].phase = Phase::Queued(*worker),
@@ -220,6 +227,13 @@ pub fn enabled(sys: &Sys, b: &Bounds, u: &Used, conns: &[ConnInfo]) -> Vec<Ev> {
                         v.push(Ev::Fail(c));
                     }
                 }
+            }
+        }
+    }
+    if u.client_resets < b.client_resets && server_running {
+        for (c, info) in conns.iter().enumerate() {
+            if !info.reset && matches!(info.phase, Phase::Queued(_)) && w.client_is_tcp(c) {
+                v.push(Ev::ClientReset(c));
             }
         }
     }
@@ -373,7 +387,7 @@ pub fn snapshot(sys: &Sys, b: &Bounds, history: &[Step]) -> Snap {
     }
     let _ = write!(k, "N{:?}", w.instances());
     for (i, c) in conns.iter().enumerate() {
-        let _ = write!(k, "C{}[l{} {:?} e{} k{}]", i, c.listener, c.phase, c.eof as u8, c.calls);
+        let _ = write!(k, "C{}[l{} {:?} e{} k{}{}]", i, c.listener, c.phase, c.eof as u8, c.calls, if c.reset { " reset" } else { "" });
     }
     let signals: Vec<i32> = w.log.borrow().iter().filter_map(|(_, _, r)| if let Rec::SignalSent(n) = r { Some(*n) } else { None }).collect();
     // where the server task is inside its Stop handling: has it joined the accept loop, and how much of
